@@ -145,13 +145,13 @@ func init() {
 			{Pattern: "parse.binaryReaderReader.*", Levels: "SF"}, {Pattern: "parse.binaryReaderSeeker.*", Levels: "SF"}, {Pattern: "parse.binaryReaderReaderAt.*", Levels: "SF"},
 			{Pattern: "parse.BinaryReader.*", Levels: "SF", Except: []string{"parse.BinaryReader.Clone", "parse.BinaryReader.Close", "parse.BinaryReader.InPageCache", "parse.BinaryReader.IBinaryReader"}},
 			{Pattern: "parse.BinaryWriter.*", Levels: "SF"}, {Pattern: "parse.BitmapReader.*", Levels: "SF"}, {Pattern: "parse.BitmapWriter.*", Levels: "SF"},
-			{Pattern: "parse.newBinaryReaderBytes", Levels: "S"}, {Pattern: "parse.NewBinaryReaderBytes", Levels: "S"}, {Pattern: "parse.NewBinaryReader", Levels: "S"},
+			{Pattern: "parse.newBinaryReaderMmap", Levels: "SF"}, {Pattern: "parse.newBinaryReaderBytes", Levels: "S"}, {Pattern: "parse.NewBinaryReaderBytes", Levels: "S"}, {Pattern: "parse.NewBinaryReader", Levels: "S"},
 			{Pattern: "parse.NewBinaryWriter", Levels: "S"}, {Pattern: "parse.NewBitmapReader", Levels: "S"}, {Pattern: "parse.NewBitmapWriter", Levels: "S"},
 		},
 		NotDecided: []string{
 			"for the io.Reader / io.ReadSeeker / io.ReaderAt back ends the behavioural contract of IBinaryReader.Bytes is proved relative to ghost models of the documented io contracts (what Read/ReadAt/Seek deliver) and to the assumption that the length the client stated at construction is the length of the data (the view predicates rrView/rsView/raView, preserved by Bytes but established by no verified constructor)",
 			"WriteUint16/32/64 and WriteInt16/32/64 byte layout (delegated to encoding/binary's AppendByteOrder, an external interface); the 8- and 24-bit writers (signed and unsigned) and all readers, including two's-complement sign extension of ReadInt8/16/24/32/64, are proved",
-			"the operating system (os.File, syscall.Mmap) and the file/mmap constructors",
+			"the operating system (os.File; syscall.Mmap is assumed to map the length it is asked for) and the file constructors; for the mmap constructor the size half of its view is proved: the mapped slice is exactly as long as the size Len() reports, so reads are clamped at the end of the file",
 		},
 		Technique: "deductive verification: behavioural interface contract for IBinaryReader.Bytes over a ghost content view (proved for the memory and mmap back ends, and for the three stream back ends relative to ghost models of io.Reader/io.ReadSeeker/io.ReaderAt), io.Seeker semantics of Seek, position bookkeeping and sticky first error, fixed-width decoding == sum of content bytes, bit-exact BitmapReader/BitmapWriter contracts; VCs discharged by z3/cvc5",
 	})
@@ -211,7 +211,7 @@ func init() {
 			"unfreed tokens stay intact: proved is that bufferPool.swap hands out only new memory, the buffer of an inactive block, or the current buffer when tail == 0 and the free credit covers it, and that swap/free write no byte memory; the pool invariant linking 'inactive' to 'every byte shifted from that block has been freed' (a linked-list accounting invariant over the whole call history) is not stated, so the end-to-end clause is not decided",
 			"bounded memory when every token is freed (a resource bound over the whole stream); proved is the local accounting fact it rests on: a refill that changes buffers retires exactly the shifted bytes buf[:start] as the new head block and carries the unfinished token over",
 			"termination of the refill loop (a reader may return (0, nil) forever) and of bufferPool.free (acyclicity of the block list)",
-			"PeekRune's decoded value on valid UTF-8 (only that it peeks through the same cursor and returns a length in 1..4)",
+			"agreement of PeekRune with unicode/utf8 on invalid input (proved: length by the lead byte and the decoded value as payload bits of the bytes at the cursor's absolute offsets, across any refills the look-ahead needs; error is sticky, a refill after it changes nothing)",
 			"the lexer built from a reader with a Bytes() method (z.r == nil): only memory safety",
 		},
 		Technique: "deductive verification with ghost state: a prophecy of the byte stream an io.Reader delivers (stream(r,i), delivered(r)); representation invariant 'the buffer holds the last len(buf) delivered bytes' kept by read() for every chunking of the reader; absolute-offset postconditions for Peek/Shift/ShiftLen; VCs from go/ssa discharged by z3/cvc5",
@@ -236,10 +236,10 @@ func init() {
 	})
 	registerProp(&PropSpec{
 		ID: "C07", Title: "CSS tokens follow the CSS Syntax Level 3 token grammar",
-		Sel: []Sel{{Pattern: "css.Lexer.*", Levels: "F"}},
+		Sel: []Sel{{Pattern: "css.Lexer.*", Levels: "F"}, {Pattern: "css.IsIdent", Levels: "SF"}, {Pattern: "css.IsURLUnquoted", Levels: "SF"}},
 		NotDecided: []string{
 			"completeness over token sequences (every sequence written from the railroad diagrams is returned as exactly those tokens): proved instead are per-token extents and spellings",
-			"IsIdent / IsURLUnquoted agree with the lexer (their private Input may be a copy of the argument, and Input.Restore is a closure the engine does not model)",
+			"full agreement of IsIdent / IsURLUnquoted with the lexer (an iff over the whole argument); proved on the real functions, through the contracts of NewInputBytes and of the lexer's own scanners, are necessary conditions on how an accepted argument begins: IsIdent rejects what starts like a number, a dimension or a lone '-', IsURLUnquoted rejects a first byte that cannot stand unescaped in an unquoted url",
 			"the case-insensitive, escape-stripped recognition of 'url(' (bytes.Replace + EqualFold) and how consumeIdentlike combines the url( scanners; proved per scanner: the unquoted body stops at ')', the end of input or the first character that may not appear unescaped, a URL/BadURL token ends at ')' or the end of input, the BadURL remnant scan stops at the first ')' outside an escape",
 			"function token extents (identifier followed by '('); comment, at-keyword and custom-property extents are proved",
 		},
